@@ -273,8 +273,14 @@ def add_history(rng, c):
             if v == [0, 0, 0]:
                 v = [5, 0, 0]
             return {'op': 'translate', 'v': v}, [[p[i] + v[i] for i in range(3)] for p in pts]
+        # quarter turn about the set's own first point (NOT about the origin: a cloud far from the
+        # origin would land 1e8 units from the other set and squared distances would no longer
+        # be exact in binary64) plus a small shift
         sh = [rng.randint(-3, 3) for _ in range(3)]
-        new = [[-p[1] + sh[0], p[0] + sh[1], (p[2] if rng.random() < 0.5 else -p[2]) + sh[2]] for p in pts]
+        c0 = pts[0]
+        flip = [rng.random() < 0.5 for _ in pts]
+        new = [[c0[0] - (p[1] - c0[1]) + sh[0], c0[1] + (p[0] - c0[0]) + sh[1],
+                c0[2] + ((p[2] - c0[2]) if f else -(p[2] - c0[2])) + sh[2]] for p, f in zip(pts, flip)]
         # a non-rigid part: one point moves on its own
         j = rng.randrange(len(new))
         new[j] = [new[j][0] + rng.choice([0, 2]), new[j][1], new[j][2] - rng.choice([0, 1])]
@@ -1117,6 +1123,10 @@ def check_knn(ctx, calls, res, with_model=True):
             if not final_ok(c, r):
                 fails.append((c, None, 'coordinates-after-history', 'harness'))
                 continue
+        if max(d2(a, b) for a in A for b in B) >= 2 ** 52:
+            # stated assumption of the exact mode: squared distances are exact in binary64
+            ctx.count('knn:skipped:squared-distances-not-exact-in-binary64')
+            continue
         defs.append(f'Definition B_{c["id"]} : list P := {cPl(B)}.')
         if with_model and not c.get('big'):
             defs.append(f'Definition T_{c["id"]} : tree := snapped_octree 8 B_{c["id"]} B_{c["id"]}.')
